@@ -54,7 +54,20 @@ def _reg(pid, run, theorems=(), translator=("T1",), rule="", level_text="", leve
 
 _reg("C01", c01.run)
 _reg("C02", c02.run)
-_reg("C03", c03.run)
+_reg("C03", c03.run, translator=("T1", "T2", "T3"),
+     theorems=["NirVerif.C03.names", "NirVerif.C03.names_cover", "NirVerif.C03.toDict_keys_generic", "NirVerif.C03.root",
+               "NirVerif.C03.edges_layout", "NirVerif.C03.value_layout"],
+     rule="Random graphs of the C01 domain (all primitives, nesting, metadata, unicode names, 16 dtypes, every hyper-parameter "
+          "container form): the raw h5py traversal of the written file is compared (a) with an independent Python reference "
+          "encoder written from the documentation and (b) with the tree the Lean model's writer prints; read_version is "
+          "checked on every file.",
+     level_text="Kernel-checked: for each of the 18 serialisable classes the member names that to_dict/write produce - "
+                "computed from the translator-generated dataclass field table - are exactly the documented ones (so a "
+                "renamed, added or dropped field, or storing input_type/output_type, fails the build); the file root is "
+                "exactly {node, version} and read_version returns the written version; edges are an n-by-2 string array in "
+                "edge order (empty float64 dataset for no edges); strings, arrays and ints are stored as documented. The "
+                "full tree equality for arbitrary graphs is established by the correspondence run, not by a theorem.",
+     level_note="Lean kernel + T1; h5py's create_dataset conversions are a modelled contract validated against real files on every run.")
 _reg("C04", c04.run)
 _reg("C05", c05.run,
      theorems=["NirVerif.C05.affine_linear", "NirVerif.C05.elementwise1", "NirVerif.C05.neuron",
